@@ -1,4 +1,5 @@
 # Job table for ./check (exec'd by the driver). J(run, quick_checks, thorough_checks, shards=…, race=…)
 PROPS = {
+    "C12": [J("^TestC12Lockstep$", 2500, 12000, shards=8), J("^TestC12LockstepOnDisk$", 1, 1200, shards=6, tier="thorough")],
     "C19": [J("^TestC19", 3000, 40000, shards=8)],
 }
